@@ -194,7 +194,7 @@ class ReadPathSpec(Spec):
             "operation/outcome trace")
     expected_probes = ("read_msg", "read_none", "read_unknown", "read_invalid", "read_lost", "skipped_frames",
                        "lost_checked_fin", "lost_checked_rst", "decode_error_checked", "returned_checked",
-                       "blocking_read_fed", "decode_error_on_cut_frame", "second_session", "scratch_redefined", "drain_by_polling", "discard_messages_ok")
+                       "blocking_read_fed", "decode_error_on_cut_frame", "second_session", "scratch_redefined", "scratch_old_style_definition", "drain_by_polling", "discard_messages_ok")
     components = {"real": REAL_CLIENT + ["pyrtma.message / header / validators / core_defs"],
                   "stub": ["socket/select/time fakes", "scripted server actor with the independent struct codec",
                            "no manager in this harness"]}
